@@ -1,6 +1,8 @@
 """C01: the output file reproduces the golden behaviour."""
 import json
 
+import os
+
 import common
 import e2e
 import e2ejobs
@@ -57,6 +59,24 @@ def run(ctx):
             j['opts'] = j['opts'] + ['--ignore-out']        # then stderr alone decides
         j['timeout'] = 120
         jobs.append(j)
+    # a cross-check program that has the SAME FILE NAME as the command but lives elsewhere and is another program
+    # (two versions of one solver): ddSMT works on private copies of both, which must stay two programs
+    import tempfile
+    import shutil
+    alt_dir = tempfile.mkdtemp(prefix='c01alt-')
+    alt = os.path.join(alt_dir, os.path.basename(e2e.TOKPRED))
+    open(alt, 'w').write(f'#!/bin/sh\n# looks at its first symbol only\nmode="$1"; shift; first="$1"; for last; do :; done\nexec {e2e.TOKPRED} "$mode" "$first" "$last"\n')
+    os.chmod(alt, 0o755)
+    for k in range(6 if ctx.thorough else 2):
+        j = e2ejobs.job(rng, fmt=fmts[k % 3], size='small', strategy=['ddmin', 'hierarchical', 'hybrid'][k % 3])
+        toks = sorted(set(t for t in e2e.sh_tokens(j['text']) if t not in '()' and t not in j['cmd']))
+        if j['cmd'][1] != 'all' or len(toks) < 2:
+            continue
+        cc = [alt, 'all'] + rng.sample(toks, 2)
+        j['opts'] = j['opts'] + ['-c', ' '.join(cc)]
+        j['cc'] = cc
+        j['timeout'] = 120
+        jobs.append(j)
     runs = e2e.run_many([{k: v for k, v in j.items() if k != 'cc'} for j in jobs])
     for j, r in zip(jobs, runs):
         w = e2e.writes_of(r)
@@ -93,6 +113,7 @@ def run(ctx):
             ctx.violation('impl-violation', input=j['text'], options=j['opts'], command=j['cmd'], env=j['env'], output=r.outtext,
                           observed=msg, expected='output file reproduces the golden behaviour; tokens of an accepted candidate; input untouched',
                           how_to_replay='./check C01 --replay <file>')
+    shutil.rmtree(alt_dir, ignore_errors=True)
     ctx.extra['runs'] = len(runs)
     ctx.assumptions += ['deterministic command whose behaviour depends on the token sequence only (property hypothesis)',
                         'candidates are lexically closed (C15) and re-duplication preserves shapes (C13)']
